@@ -121,7 +121,9 @@ def gen_case(case):
     glyphs = []
     isos = []
     exact_paths = []
-    for g in range(r.choice([2, 2, 3, 3, 4, 5, 6])):
+    nglyphs = r.choice([2, 2, 3, 3, 4, 5, 6]) if r.random() < 0.95 else r.randint(17, 26)  # sometimes a shape shared by many glyphs
+    wide = []
+    for g in range(nglyphs):
         paths = ""
         for cpy in range(r.randint(1, 3)):
             if exact:
@@ -134,7 +136,10 @@ def gen_case(case):
             exact_paths.append(to_d(place(P, iso), 0 if exact else 12))
             d = to_d(place(P, iso), 0 if exact else 6)
             paths += f'<path d="{d}" fill="#{r.randint(0, 0xFFFFFF):06x}"/>'
-        glyphs.append(f'<svg xmlns="http://www.w3.org/2000/svg" viewBox="0 0 {vb} {vb}"><defs/>{paths}</svg>')
+        # some glyphs are wider than the others (a different advance); the copies stay where they are
+        wv = vb if (g == 0 or r.random() < 0.75) else int(vb * r.choice([1.5, 2]))
+        wide.append(wv)
+        glyphs.append(f'<svg xmlns="http://www.w3.org/2000/svg" viewBox="0 0 {wv} {vb}"><defs/>{paths}</svg>')
     cfg = {"color_format": fmt, "upem": upem, "ascender": upem, "descender": 0, "width": upem, "reuse_tolerance": tol, "clip_to_viewbox": False, "keep_glyph_names": True}
     sources = [{"svg": s, "codepoints": [0xE000 + i]} for i, s in enumerate(glyphs)]
     return sources, cfg, {"exact": exact, "kind": kind, "isos": isos, "vb": vb, "exact_paths": exact_paths}
